@@ -148,6 +148,10 @@ func c05Body(depth int) mc.Body {
 				m = append(m, c05Req{fmt.Sprintf("node points on A with NaN at position %d", pos), "nan-node-point", false, "A", "", mk(pos)})
 				m = append(m, c05Req{fmt.Sprintf("node points on the root with NaN at position %d", pos), "nan-node-point", false, root, "", mk(pos)})
 			}
+			// a new edge below the root sentinel (a second root) without node type, for an existing and for a new node
+			for _, n := range []string{"A", "Z9"} {
+				m = append(m, c05Req{fmt.Sprintf("new edge root-sentinel>%s without node type", n), "no-node-type", true, n, "root", data.Points{tomb(0)}})
+			}
 			// NaN in a point that is itself marked deleted (point-level tombstone count): still a value the store cannot hold
 			for _, tb := range []int{1, 2, 3} {
 				m = append(m, c05Req{fmt.Sprintf("node point on A with NaN and tombstone count %d", tb), "nan-node-point", false, "A", "", data.Points{{Type: "tn", Value: nan, Tombstone: tb, Time: tick()}}})
@@ -226,6 +230,11 @@ func c05Body(depth int) mc.Body {
 				}
 				if err != nil && len(ups) > 0 {
 					add("refused-but-rebroadcast/"+q.class, fmt.Sprintf("in state {%s}: %s was refused (%v) but rebroadcast on %v", g.key(), q.desc, err, ups))
+				}
+				// the instance root is still the same one (asked the way clients ask: nodes.root.all)
+				if rn, rerr := client.GetRootNode(inst.Nc); rerr != nil || rn.ID != root {
+					add("root-changed-by-refused-request/"+q.class, fmt.Sprintf("in state {%s}: after %s (reply: %v) the instance answers the root query with %q (%v), the root is %q", g.key(), q.desc, err, rn.ID, rerr, root))
+					break
 				}
 				after, err2 := inst.Snap(universe)
 				if err2 != nil {
@@ -343,7 +352,7 @@ func checkC05(r *mc.Report, thorough bool) {
 		depth = 4
 	}
 	r.Explore(mc.Config{Name: fmt.Sprintf("graph-states-d%d", depth), Prune: true, SplitDepth: 2, StopAfterViolations: 12,
-		Rule: fmt.Sprintf("explicit-state search over graph states reached by %d legal writes (create/delete/undelete any of the 9 edges among root,A,B,C in either direction, node points), states = (edge set with tombstones, nodes with points, remaining depth); in EVERY new state the whole menu of must-be-refused requests is executed: self edges, root tombstone (value 1 alone / in a batch; values 3, 2, 0.5, -1, -2), new edge without node type, every edge that would close a cycle through live or deleted edges (incl. through the root), NaN at each position of node-point and edge-point batches, NaN in points that carry a tombstone count; after each: error reply, full snapshot unchanged, nothing on up.>, follow-up write+read answered", depth)},
+		Rule: fmt.Sprintf("explicit-state search over graph states reached by %d legal writes (create/delete/undelete any of the 9 edges among root,A,B,C in either direction, node points), states = (edge set with tombstones, nodes with points, remaining depth); in EVERY new state the whole menu of must-be-refused requests is executed: self edges, root tombstone (value 1 alone / in a batch; values 3, 2, 0.5, -1, -2), new edge without node type (also below the root sentinel), every edge that would close a cycle through live or deleted edges (incl. through the root), NaN at each position of node-point and edge-point batches, NaN in points that carry a tombstone count; after each: error reply, the root query still names the same root, full snapshot unchanged, nothing on up.>, follow-up write+read answered", depth)},
 		c05Body(depth))
 	sh.CleanupTemplate()
 	r.Assume("reference graph: an edge parent>child is cyclic iff parent==child or child is an ancestor of parent through any (live or deleted) edges")
